@@ -648,6 +648,24 @@ class Interp:
 
     def getattr(self, v, name, node=None):
         v = self.unopt(v)
+        if isinstance(v, SSuper):
+            mro = v.obj.cands[0].__mro__ if isinstance(v.obj, SObj) else (v.obj.live.__mro__ if isinstance(v.obj, SFunc) else ())
+            after = False
+            for k in mro:
+                if after and name in k.__dict__:
+                    st = k.__dict__[name]
+                    if isinstance(st, pytypes.FunctionType):
+                        return SFunc(st, self_v=v.obj)
+                    if isinstance(st, classmethod):
+                        return SFunc(st.__func__, self_v=SFunc(v.obj.cands[0]) if isinstance(v.obj, SObj) else v.obj)
+                    if isinstance(st, staticmethod):
+                        return SFunc(st.__func__)
+                    if isinstance(st, pytypes.WrapperDescriptorType) and k is object:
+                        return SFunc(_object_noop)
+                    raise Unsupported(f"super().{name} resolves to {type(st).__name__}")
+                if k is v.cls:
+                    after = True
+            raise Unsupported(f"super().{name} not found")
         if isinstance(v, SObj):
             return self.obj_getattr(v, name, node)
         if isinstance(v, SModule):
@@ -786,6 +804,8 @@ class Interp:
             if isinstance(live, pytypes.MethodType):
                 args = [self.reflect(live.__self__)] + list(args)
                 live = live.__func__
+            if live is _object_noop:
+                return NONE
             if isinstance(live, pytypes.FunctionType):
                 return self.call_function(live, args, kwargs, node)
             if isinstance(live, type):
@@ -820,12 +840,9 @@ class Interp:
             try:
                 r = ov(self, args, kwargs)
             except PyExc as e:
-                from .native import PyExcMarker
+                from .native import PyExcMarker, make_native_exc
 
-                try:
-                    native_exc = e.cls(e.msg) if e.cls is not UnicodeDecodeError else UnicodeDecodeError("utf-8", b"\xff", 0, 1, e.msg)
-                except Exception:
-                    native_exc = RuntimeError(e.msg)
+                native_exc = make_native_exc(e.cls, e.msg)
                 self.override_log.append((qn, PyExcMarker(native_exc)))
                 raise
             self.override_log.append((qn, r))
@@ -880,6 +897,7 @@ class Interp:
         if any(isinstance(n, (ast.Yield, ast.YieldFrom)) for n in walk_no_nested(fnode)):
             return SGen(self, fnode, mod, args, kwargs, live, parent)
         frame = Frame(mod, fnode.name, parent)
+        frame.live = live
 
         def dflt(dnode, which):
             if live is not None:
@@ -1813,7 +1831,22 @@ class Interp:
         return self.call(f, args, kwargs, e)
 
     def make_super(self, frame, args):
-        raise Unsupported("super()")
+        """zero-argument super() inside a method of a repo class"""
+        f = frame
+        while f is not None and getattr(f, "live", None) is None:
+            f = f.parent
+        if f is None or args:
+            raise Unsupported("super() outside a method or with arguments")
+        live = f.live
+        qual = live.__qualname__.split(".")
+        if len(qual) < 2:
+            raise Unsupported("super() in a plain function")
+        owner = sys.modules[live.__module__]
+        for part in qual[:-1]:
+            owner = getattr(owner, part)
+        fnode, _ = func_node(live)
+        selfname = fnode.args.args[0].arg
+        return SSuper(owner, f.locals[selfname])
 
     # ---- comprehensions
     def eval_ListComp(self, e, frame):
@@ -1838,6 +1871,19 @@ class Interp:
 
 
 MISSING = object()
+
+
+def _object_noop(*a, **k):
+    """object.__init__ and friends"""
+    return None
+
+
+class SSuper(V):
+    kind = "super"
+
+    def __init__(self, cls, obj):
+        self.cls = cls
+        self.obj = obj
 
 
 class SSlice(V):
